@@ -263,10 +263,10 @@ def exec (cfg : Cfg) (guarded : Bool) (s : Sess) (db : Db) : Op → Sess × Res
       | none => (s1, .err .other)
       | some sd => (s1, .num sd.items.length)
   | .count p =>
-    match s.kids p with
-    | some ⟨items, full, some n⟩ => (s, .num n)
-    | sdo =>
-      let sd := sdo.getD SetData.empty
+    let sd := (s.kids p).getD SetData.empty
+    match sd.count with
+    | some n => (s, .num n)                                       -- cached count
+    | none =>
       let n := (db.filter (fun r => rowVal r refAttr == (p : Int))).length
       (setKids s p { sd with count := some n }, .num n)
   | .isEmpty p =>
